@@ -2190,8 +2190,10 @@ fn stress_weak_upgrade(out: &mut Out, iterations: usize) {
     }
 }
 
-/// `Cow<[T]>` must NOT be `Send` / `Sync` when `T` is not (cow.rs `unsafe impl<T: Cowable + Send/Sync + ?Sized>`):
-/// a compile-time check.  `NotAuto::<X>::check` is ambiguous — the harness stops compiling — as soon as the
+/// `Cow<[T]>` must NOT be `Send` / `Sync` when `T` is neither (cow.rs `unsafe impl<T: Cowable + … + ?Sized>`):
+/// a compile-time check, restricted to what holds before AND after the repair of the bounds (round 6: the code as
+/// found made `Cow<[Cell<u8>]>` `Send` — unsound, see `auto_trait_table` / the type probes — and this module used
+/// to ASSERT that positively).  `NotAuto::<X>::check` is ambiguous — the harness stops compiling — as soon as the
 /// probed type implements the trait `X` stands for (the `static_assertions::assert_not_impl_any` construction).
 #[allow(dead_code)]
 mod not_auto {
@@ -2216,8 +2218,6 @@ mod not_auto {
         fn is_send_sync<T: Send + Sync>() {}
         is_send_sync::<MCow<'static, str>>();
         is_send_sync::<MCow<'static, [metrics::Label]>>();
-        fn is_send<T: Send>() {}
-        is_send::<MCow<'static, [std::cell::Cell<u8>]>>();
     }
 }
 
@@ -2403,7 +2403,104 @@ const TPROBES: &[TProbe] = &[
         codes: &["E0277"],
         what: "Cow<[Cell<u8>]> is Sync: two threads can write its elements without synchronisation through a shared reference",
     },
+    // round 6: a `Cow` is a `&T` or an `Arc<T>` — moving one to another thread leaves other paths to the same `T`s behind
+    // (the caller's borrow, the other clones), so `Send` needs `T: Sync`; and a `&Cow` lets the other thread clone a Shared
+    // value and become the last owner, so `Sync` needs `T: Send` (the bounds of `Arc<T>`; Lean: `C14.sound_iff_arc_bounds`).
+    // Each body is the complete safe witness program (REPORT.md (f): lost updates / heap corruption when run).
+    TProbe {
+        name: "shared slice of Cell cloned, one copy moved to another thread",
+        body: "pub fn f() -> u64 { let arc: std::sync::Arc<[std::cell::Cell<u64>]> = vec![std::cell::Cell::new(0u64)].into(); let a = metrics::verif_cow::Cow::<[std::cell::Cell<u64>]>::from_shared(arc); let b = a.clone(); let t = std::thread::spawn(move || { for _ in 0..2000000 { b[0].set(b[0].get() + 1) } }); for _ in 0..2000000 { a[0].set(a[0].get() + 1) } t.join().unwrap(); a[0].get() }",
+        control: "pub fn f() -> u64 { let arc: std::sync::Arc<[u64]> = vec![0u64].into(); let a = metrics::verif_cow::Cow::<[u64]>::from_shared(arc); let b = a.clone(); let t = std::thread::spawn(move || b[0] + 1); t.join().unwrap() + a[0] }",
+        codes: &["E0277"],
+        what: "Cow<[Cell<u64>]> is Send although Cell is not Sync: a Shared value is cloned and one copy moved to another thread; both threads read-modify-write the same Cell through &Cell without synchronisation (data race in safe code; with RefCell<String> elements two &mut String: double free / heap corruption)",
+    },
+    TProbe {
+        name: "borrowed slice of RefCell<String> moved into a scoped thread while the owner keeps using it",
+        body: "pub fn f() { let cells = vec![std::cell::RefCell::new(String::new())]; let c = metrics::verif_cow::Cow::<[std::cell::RefCell<String>]>::from_borrowed(&cells[..]); std::thread::scope(|s| { s.spawn(move || c[0].borrow_mut().push('x')); cells[0].borrow_mut().push('y'); }) }",
+        control: "pub fn f() -> usize { let cells = vec![String::new()]; let c = metrics::verif_cow::Cow::<[String]>::from_borrowed(&cells[..]); std::thread::scope(|s| { let h = s.spawn(move || c[0].len()); cells[0].len() + h.join().unwrap() }) }",
+        codes: &["E0277"],
+        what: "Cow<[RefCell<String>]> is Send although RefCell is not Sync: a Borrowed value (a &[RefCell<String>]) is moved into a scoped thread while the owner keeps its own access; both threads obtain &mut String from the same RefCell (its borrow flag is not atomic)",
+    },
+    TProbe {
+        name: "&Cow of Sync + !Send elements handed to another thread",
+        body: "pub struct G(Option<std::sync::MutexGuard<'static, ()>>); impl Clone for G { fn clone(&self) -> G { G(None) } } pub fn f(c: &metrics::verif_cow::Cow<'static, [G]>) { std::thread::scope(|s| { s.spawn(move || { let mine = c.clone(); std::mem::forget(mine) }); }) }",
+        control: "pub struct G(Option<std::sync::MutexGuard<'static, ()>>); impl Clone for G { fn clone(&self) -> G { G(None) } } pub fn f(c: &metrics::verif_cow::Cow<'static, [G]>) { std::thread::scope(|s| { s.spawn(move || { let g: &G = &G(None); let _ = g; }); }); let mine = c.clone(); drop(mine) }",
+        codes: &["E0277"],
+        what: "Cow<[G]> is Sync for G: Sync + !Send (G holds a MutexGuard): another thread clones a Shared value through &Cow (an Arc increment) and can drop the last reference, destroying !Send objects on a thread that did not create them (a MutexGuard unlocked by a thread that does not hold the lock)",
+    },
 ];
+
+// ---------------------------------------------------------------------------------------------
+// auto-trait decision table (round 6): for element types with each combination of `Send` / `Sync`, is `Cow<'static, [E]>`
+// `Send`? `Sync`?  The compiler's answer (type-checked against the `metrics` rlib of this harness) is the implementation
+// side of the op `cow autotrait <E: Send> <E: Sync>`; the model side is `CowSend.Bound.admits` on the bounds the
+// translator read from cow.rs.  Independent oracle, taken from the standard library and not from the model: `Cow<[E]>`
+// must not be `Send` (`Sync`) unless `Arc<[E]>` is — the Shared kind IS an `Arc<[E]>`.
+const AT_PRELUDE: &str = "#![allow(dead_code, unused_variables)]\npub struct G(Option<std::sync::MutexGuard<'static, ()>>); impl Clone for G { fn clone(&self) -> G { G(None) } }\nfn is_send<T: Send>() {} fn is_sync<T: Sync>() {}\n";
+const AT_ELEMS: &[(&str, bool, bool)] =
+    &[("u8", true, true), ("std::cell::Cell<u8>", true, false), ("G", false, true), ("std::rc::Rc<u8>", false, false), ("metrics::Label", true, true), ("std::cell::RefCell<String>", true, false)];
+
+fn auto_trait_table(out: &mut Out) {
+    let dir = out.dir.join("probes");
+    std::fs::create_dir_all(&dir).expect("probe dir");
+    // per element type: [Cow Send, Cow Sync, Arc Send, Arc Sync, E Send, E Sync]
+    let results: Vec<Vec<Result<(), String>>> = std::thread::scope(|s| {
+        let hs: Vec<_> = AT_ELEMS
+            .iter()
+            .enumerate()
+            .map(|(i, (e, _, _))| {
+                let dir = dir.clone();
+                s.spawn(move || {
+                    let tys = [format!("metrics::verif_cow::Cow<'static, [{}]>", e), format!("std::sync::Arc<[{}]>", e), e.to_string()];
+                    let mut r = Vec::new();
+                    for (j, ty) in tys.iter().enumerate() {
+                        for (k, f) in ["is_send", "is_sync"].iter().enumerate() {
+                            r.push(crate::c01::rustc_check(&dir, &format!("c14auto{}_{}_{}", i, j, k), &format!("{}pub fn f() {{ {}::<{}>() }}\n", AT_PRELUDE, f, ty)));
+                        }
+                    }
+                    r
+                })
+            })
+            .collect();
+        hs.into_iter().map(|h| h.join().expect("auto-trait probe thread")).collect()
+    });
+    out.case("auto-trait decision table: Cow<[E]> against the bounds read from cow.rs and against Arc<[E]>");
+    out.nontrivial();
+    for ((e, esend, esync), r) in AT_ELEMS.iter().zip(results) {
+        let yes: Vec<bool> = r
+            .iter()
+            .map(|x| match x {
+                Ok(()) => true,
+                Err(m) if m.contains("[E0277]") => false,
+                Err(m) => panic!("auto-trait probe for `{}`: rustc refused the program for an unexpected reason:\n{}", e, m),
+            })
+            .collect();
+        let (cow_send, cow_sync, arc_send, arc_sync) = (yes[0], yes[1], yes[2], yes[3]);
+        // the harness's own labelling of the element type must be the compiler's
+        assert_eq!((yes[4], yes[5]), (*esend, *esync), "auto traits of the probe element type `{}`", e);
+        out.count(&format!("autotrait E:Send={} E:Sync={}", *esend as u8, *esync as u8));
+        out.op(&format!("cow autotrait {} {}", *esend as u8, *esync as u8), &format!("send={} sync={}", cow_send as u8, cow_sync as u8));
+        if cow_send && !arc_send {
+            out.oracle_fail(
+                "Cow<[E]> is Send for an element type for which Arc<[E]> is not (the Shared kind is an Arc<[E]>, the Borrowed kind a &[E]): safe code can give two threads &E to the same elements, or drop E on a foreign thread",
+                &format!("E = {} (E: Send = {}, E: Sync = {}); rustc accepts: fn is_send<T: Send>() {{}} pub fn f() {{ is_send::<metrics::verif_cow::Cow<'static, [{}]>>() }} and refuses the same for std::sync::Arc<[{}]>", e, esend, esync, e, e),
+            );
+        }
+        if cow_sync && !arc_sync {
+            out.oracle_fail(
+                "Cow<[E]> is Sync for an element type for which Arc<[E]> is not: through &Cow another thread can clone a Shared value and drop the last reference (E destroyed on a foreign thread), or reach &E of elements that are not Sync",
+                &format!("E = {} (E: Send = {}, E: Sync = {}); rustc accepts: fn is_sync<T: Sync>() {{}} pub fn f() {{ is_sync::<metrics::verif_cow::Cow<'static, [{}]>>() }} and refuses the same for std::sync::Arc<[{}]>", e, esend, esync, e, e),
+            );
+        }
+        // and it must not be needlessly strict either: thread-safe elements make a thread-safe value (clause "can be sent")
+        if (arc_send && !cow_send) || (arc_sync && !cow_sync) {
+            out.oracle_fail(
+                "Cow<[E]> is not Send / Sync although its elements are Send + Sync: values cannot be sent to and dropped on other threads",
+                &format!("E = {}: Cow Send = {}, Sync = {}; Arc<[E]> Send = {}, Sync = {}", e, cow_send, cow_sync, arc_send, arc_sync),
+            );
+        }
+    }
+}
 
 fn type_probes(out: &mut Out) {
     let dir = out.dir.join("probes");
@@ -2441,6 +2538,7 @@ fn type_probes(out: &mut Out) {
 
 pub fn run(cfg: &Cfg, out: &mut Out) {
     type_probes(out);
+    auto_trait_table(out);
     not_auto::assert_bounds();
     alloc::install();
     out.case("stream D: into_owned racing Weak::upgrade (stress)");
